@@ -5,6 +5,10 @@ Correspondence: functor expressions of the property's grammar are rendered both 
 and as driver input (`sigc_model visit`); compared are (R) what `visit_each_trackable` reaches on the stored
 functor, (A) `slot.empty()` / `signal.size()` after each trackable of the case is destroyed first, (B) the
 behaviour when slot and signal are destroyed first and the trackables afterwards.
+Bound arguments of bind / bind<I> / bind_return are plain values, std::ref / std::cref, by-value objects and
+*functor expressions bound by value* (`fun<r><n> <expr>`: mem_fun functors, slots, make_slot functors, adaptor
+expressions), at every position of the bound tuple; the statement side counts what such a functor refers to as
+referred to by the whole expression.
 """
 import glob
 import json
@@ -24,7 +28,8 @@ PID = "C09"
 LEVEL = "proof"
 MODULE = "Sigc.Props.C09"
 REQUIRED = ["Sigc.C09.visited_eq_referenced", "Sigc.C09.visitedAll_eq_referenced", "Sigc.C09.ties_all",
-            "Sigc.C09.no_trace", "Sigc.C09.f1_witness"]
+            "Sigc.C09.no_trace", "Sigc.C09.f1_witness", "Sigc.C09.scan_perm_referenced", "Sigc.C09.bound_perm_refs",
+            "Sigc.C09.bound_leaf_witness"]
 PARTIAL = []
 TRUSTED = [
     "Lean 4 kernel (axioms per theorem as audited: propext, Quot.sound, Classical.choice only)",
@@ -43,7 +48,8 @@ ASSUMPTIONS = [
     "— the user's obligation; they are never chosen as victims",
     "the slot is made from the expression while all referenced objects are alive",
 ]
-EXPLANATION = ("theorems quantify over all expressions; the correspondence samples/enumerates expressions up to depth 3 "
+EXPLANATION = ("theorems quantify over all expressions (bound arguments: values, std::ref/cref, by-value objects, functor "
+               "expressions bound by value); the correspondence samples/enumerates expressions up to depth 3 "
                "with 1-3 trackables (+ optional untracked object, + signals for make_slot)")
 
 CXXFLAGS = ["-std=c++17", "-O0", "-g1", "-fsanitize=address", "-fno-omit-frame-pointer",
@@ -326,6 +332,10 @@ def shrink_candidates(sig, pool, node):
         if nd[0] == "bind" and len(nd[3]) > 1:
             for j in range(len(nd[3])):
                 res.append(ctx(("bind", nd[1], nd[2], nd[3][:j] + nd[3][j + 1:])))
+        if nd[0] == "bind":
+            for j, b in enumerate(nd[3]):
+                if b[0] == "fun":     # a functor bound by value -> a plain value
+                    res.append(ctx(("bind", nd[1], nd[2], nd[3][:j] + (("val",),) + nd[3][j + 1:])))
         if nd[0] == "to" and len(nd[2]) > 1:
             for j in range(len(nd[2])):
                 res.append(ctx(("to", nd[1], nd[2][:j] + nd[2][j + 1:])))
@@ -434,12 +444,18 @@ def malformed_stream(rng, n):
           ("I1", ["1V"], ("bret", ("F", "V", 1), ("val",))),
           ("V1", ["1D", "2s1"], ("S", "V", 1, "s2")),
           ("V0", ["1V", "2U"], ("to", ("L", "V"), ("u2",))),
-          ("V0", ["1D"], ("hret", ("bret", ("L", "V"), ("copy", "d1"))))]
+          ("V0", ["1D"], ("hret", ("bret", ("L", "V"), ("copy", "d1")))),
+          # functors bound by value that refer to nothing / only to untracked objects / only to private copies
+          ("V0", ["1D"], ("bind", None, ("L", "V"), (("fun", "V", 0, ("L", "V")), ("fun", "I", 1, ("F", "I", 1))))),
+          ("V0", ["1D", "2U"], ("bind", 0, ("L", "V"), (("fun", "V", 0, ("M", "V", 0, "u2")),))),
+          ("V0", ["1D"], ("bind", None, ("G", "V", "V", 0),
+                          (("fun", "V", 0, ("bind", None, ("L", "V"), (("copy", "d1"),))),))),
+          ("V0", ["1V"], ("hret", ("bret", ("L", "V"), ("fun", "V", 0, ("slot", "V", 0, ("L", "V"))))))]
     return [c for c in cs if G.case_ok(*c)][:n]
 
 
 BAD_LINES = ["bind 0 2 leaf ref d1", "mf x1", "", "slot", "to 1 leaf", "c2 leaf leaf", "bind Q 1 leaf val",
-             "leaf leaf", "hide L"]
+             "leaf leaf", "hide L", "bind L 1 leaf fun", "bret leaf fun", "bind L 1 leaf fun val", "fun leaf"]
 
 
 # ------------------------------------------------------------------------------------------------
@@ -451,7 +467,10 @@ def distribution(cases):
     d = {"depth": Counter(), "adaptor_kinds": Counter(), "signature": Counter(), "trackables_in_pool": Counter(),
          "victims_referenced": 0, "victims_unreferenced": 0, "same_trackable_twice": 0, "virtual_base_referenced": 0,
          "inner_slots": Counter(), "bind_bound_count": Counter(), "bind_position": Counter(),
-         "bound_arg_kinds": Counter(), "untracked_referenced": 0, "by_value_copy": 0}
+         "bound_arg_kinds": Counter(), "untracked_referenced": 0, "by_value_copy": 0,
+         "cases_with_bound_functor": 0, "cases_with_bound_functor_referring_to_trackable": 0,
+         "bound_functor_root": Counter(), "bound_functor_place": Counter(), "bound_functor_nested_in_bound_functor": 0,
+         "slot_parameter_targets": 0}
     for cid, sig, pool, node in cases:
         d["depth"][str(G.depth(node))] += 1
         ks = G.kinds(node)
@@ -471,12 +490,26 @@ def distribution(cases):
         if any(how == "copy" for how, o in objs):
             d["by_value_copy"] += 1
         d["inner_slots"][str(ks.count("slot"))] += 1
+        bf = G.bound_functors(node)
+        if bf:
+            d["cases_with_bound_functor"] += 1
+            if any(G.referenced(e) for _, _, _, _, e, _ in bf):
+                d["cases_with_bound_functor_referring_to_trackable"] += 1
+        for holder, i, k, pos, e, inside in bf:
+            d["bound_functor_root"][e[0]] += 1
+            d["bound_functor_place"]["bind_return" if holder == "bret" else
+                                     "bind%s arg %d of %d" % ("" if pos is None else "<I>", i + 1, k)] += 1
+            if inside:
+                d["bound_functor_nested_in_bound_functor"] += 1
+        d["slot_parameter_targets"] += sum(1 for x in ks if x in ("G", "H"))
 
         def walk(n):
             if n[0] == "bind":
                 d["bind_bound_count"][str(len(n[3]))] += 1
                 d["bind_position"]["last" if n[1] is None else str(n[1])] += 1
                 d["bound_arg_kinds"].update(b[0] for b in n[3])
+            if n[0] == "bret":
+                d["bound_arg_kinds"]["bind_return:" + n[2][0]] += 1
             for c in G.children(n):
                 walk(c)
         walk(node)
@@ -492,7 +525,7 @@ def correspondence(ctx):
             stream.append(("corpus",) + c)
     except Exception as ex:   # noqa: BLE001
         infra.append("corpus: %s" % ex)
-    for c in malformed_stream(rng, 7):
+    for c in malformed_stream(rng, 11):
         stream.append(("edge",) + c)
     enum_total = None
     if ctx.thorough:
